@@ -100,6 +100,21 @@ def json_lines(rnd, n):
             if "\x00" in key:
                 continue
             L.append("jf %s %s m=%s" % (hx(key), hx(doc), json.dumps(members, separators=(",", ":"))))
+    # many values before the wanted member: more than a thousand empty containers, flat and inside a list of records (a skipper that
+    # counts depth must come back to where it started)
+    for empties, wrap in ((["[]", "{}", "[ ]", "{ }"], False), (["[]"], True)):
+        doc, members = "{", []
+        for i in range(1100 if not wrap else 40):
+            name = "m%d" % i
+            val = rnd.choice(empties) if not wrap else "[" + ",".join('{"tags":[],"attrs":{},"n":%d}' % j for j in range(30)) + "]"
+            doc += '"%s":' % name
+            members.append([hx(name), False, len(doc)])
+            doc += val + ","
+        doc += '"k":'
+        members.append([hx("k"), False, len(doc)])
+        doc += '{"x":[1,2]}}'
+        for key in ("k", "m1099" if not wrap else "m39", "zz"):
+            L.append("jf %s %s m=%s" % (hx(key), hx(doc), json.dumps(members, separators=(",", ":"))))
     return L
 
 
